@@ -46,7 +46,7 @@ TEXT = ['alpha', 'beta', ' ', 'line\n', 'x', 'yz\n', '...']
 
 def shards(tier):
     q = tier == 'quick'
-    return [{'kind': 'run', 'n': 30 if q else 400} for _ in range(16)]
+    return [{'kind': 'run', 'n': 50 if q else 400} for _ in range(16)]
 
 
 @st.composite
